@@ -6,6 +6,7 @@ TB = ("Trusted: Coq 8.16.1 kernel (+coqchk in the thorough tier), no axioms (Pri
       "translator tools/gen_tables.py; extraction (ExtrOcamlBasic directives only) + OCaml driver, used only for the correspondence; "
       "the hand-written Gallina model is validated against the real crates only on the cases a run executes (counts in evidence). "
       "Modelled rather than verified: ")
+KAN = "src/kanata/mod.rs (handle_input_event, tick_ms/tick_states, handle_keystate_changes incl. custom actions), key_repeat.rs, sequences.rs, dynamic_macro.rs, caps_word.rs, parser key_override.rs and keyberon Layout as Gallina functions; not modelled: mouse-move distances, cmd/clipboard/push-msg, zippychord (pass-through), chords v2."
 LAYOUT = "keyberon Layout (layout.rs, action.rs, action/switch.rs) without chords v2; the parser is outside the model (the model consumes the parsed configuration dumped by the real parser)."
 CHECKS = {
  'C04': ("Coq theorems on the executable layout model: an event below 32 pending is appended FIFO with no other effect; a release removes exactly the states created at its coordinate whatever the layers are now; a press resolves to the first non-transparent cell in the search order; the search order is held layers newest-first, base, optional first layer. Tied to keyberon::Layout by differential execution of the extracted model against the real crate. Partial: the end-to-end refinement to the layered-keymap spec and the parser's table fill are not yet theorems.",
@@ -22,6 +23,14 @@ CHECKS = {
          "Coq proof (evaluator vs denotation, all depths) + opcode/fired-case correspondence + exhaustive small-scope oracle", "keyberon action/switch.rs (evaluator, opcodes) and parser cfg/switch.rs (compiler) as Gallina functions."),
  'C11': ("Every statement of the property about the code tables (discriminant sets coincide, both transmutes preserve the numeric code, from_u16/as_u16 round trip, a listed key name resolves to its listed code, ignore range never output) is a Coq theorem proved by computation over tables REGENERATED from the Rust source on every run; the compiled crates are compared with those tables exhaustively (all u16 < 1024, all names) and every known code is sent through self-mapped / transparent / unmapped configurations of the real Kanata; the intercepted-key set is checked against defsrc + deflayermap inputs + (all known - exceptions) on random configurations.",
          "Coq proof by vm_compute over translator-regenerated tables + exhaustive table/pipeline correspondence", "the key tables (translated, not hand-modelled); write_key/press_key/release_key's ignore-range filter (pattern-checked by the translator)."),
+ 'C13': ("Coq theorems on the model of Overrides::override_keys for arbitrary tables and key lists: the chosen override matches and no matching override of the same key has more modifiers, substitution removes the combination and adds the outputs, keys outside keep their relative order, no combination present => the list is unchanged (restore). The real override_keys (public) is compared with the model on every ordered key list up to length 4 over each random table, plus pipeline histories; an independent python reading of the property is the failing-input oracle.",
+         "Coq lemmas on a Gallina model of key_override.rs + exhaustive key-list correspondence + oracle", "parser cfg/key_override.rs and the override part of handle_keystate_changes."),
+ 'C14': ("Coq theorems on the model of key_repeat.rs: a repeat event yields at most one output event and only for a key in the key list kanata computes for the OS (after unmod/unshift filtering and overrides); an unmod-released modifier is never repeated; the last-listed chord key is preferred. Tied by kanata-level differential execution with repeats injected everywhere; a python oracle reconstructs the OS-down set from the real output and checks every forwarded repeat, and completeness for every key-producing action form held alone. Partial: completeness of the parser's key-outputs table is tested (oracle), not proved.",
+         "Coq lemmas on a Gallina model of key_repeat.rs + kanata-level differential correspondence + OS-down-set oracle", KAN),
+ 'C18': ("Coq theorems on the model: press/release/tap of a virtual key are the layout's own events whoever triggers them, toggle releases iff something is held at the coordinate, hold-for-duration releases exactly at D for EVERY D and is re-armed (no second press) on re-activation, on-idle fires once the idle time is reached and not before. Tied by kanata-level differential execution incl. direct fake-key calls (the TCP handler's entry point). Partial: the TCP server thread itself is not run.",
+         "Coq lemmas on the Gallina kanata model + kanata-level differential correspondence", KAN),
+ 'C19': ("Coq theorems on the model of dynamic_macro.rs: the saved macro is the typed events in order minus the stop key and the truncated tail (for every typing history), releases are appended so that nothing stays down, a macro never replays itself, recording stops at the size limit, replay pops items in order with the pacing. Tied by kanata-level differential execution over recording scenarios; the oracle checks that nothing is left down and that a replay reproduces the typing on time-insensitive configs. The order of the final releases comes from a hash set: compared event-by-event only when at most one key can be down.",
+         "Coq lemmas on a Gallina model of dynamic_macro.rs + kanata-level differential correspondence + oracle", KAN),
  'C17': ("Coq theorems on the model's tap-dance: the count is 1 + own presses before the first other press, the three end conditions (timeout, other key, list exhausted), the chosen action is min(count,len)-1, eviction removes every own press and keeps the other keys' events in order. Tied by differential execution over a grid (lazy/eager, list length 1-4, T) and random configs.",
          "Coq lemmas on the Gallina Layout model + differential correspondence", LAYOUT),
 }
